@@ -654,7 +654,14 @@ class Var:
         if dtype == F32 and rel is not None:
             rel = _up((1 + rel) * (1 + U32) - 1)
         if dtype in INTS and self.dtype in FLOATS:
-            raise Unsupported('float to int conversion')
+            # numpy/scipp: truncation towards zero.  r is a fresh integer with |r| <= |val| < |r| + 1 and the sign of val
+            if _kind(self.dtype) != 'scalar':
+                raise Unsupported('float to int conversion of vectors')
+            ri = core.fresh_int('trunc')
+            core.ROUNDINGS[str(ri)] = ('trunc', val)
+            r = z3.ToReal(ri)
+            core.assume(z3.If(val >= 0, z3.And(r <= val, val < r + 1), z3.And(r >= val, val > r - 1)))
+            return Var(Buf(r, b.unit, dtype, nan=z3.BoolVal(False), defd=b.defd, rel=None), self.dims, self._sizes)
         return Var(Buf(val, b.unit, dtype, nan=b.nan, defd=b.defd, rel=rel), self.dims, self._sizes)
 
     def _to_unit(self, unit, copy=True):
@@ -673,8 +680,15 @@ class Var:
                 return self
         f = r.term()
         k = _kind(b.dtype)
-        if b.dtype in INTS or b.dtype == BOOL:
-            raise Unsupported('unit conversion of integer variable')
+        if b.dtype == BOOL:
+            raise Unsupported('unit conversion of a boolean variable')
+        if b.dtype in INTS:
+            # scipp keeps the integer dtype and rounds the converted value to the nearest integer
+            ri = core.fresh_int('rint')
+            core.ROUNDINGS[str(ri)] = ('rint', b.val * f)
+            r = z3.ToReal(ri)
+            core.assume(z3.And(r - z3.RealVal('1/2') <= b.val * f, b.val * f <= r + z3.RealVal('1/2')))
+            return Var(Buf(r, unit, b.dtype, nan=b.nan, defd=b.defd, rel=None), self.dims, self._sizes)
         v = b.val * f if k == 'scalar' else ([x * f for x in b.val] if k == 'vec' else None)
         if v is None:
             raise Unsupported('unit conversion of matrices')
